@@ -118,6 +118,38 @@ pub fn run(stim: &Value, rec: &Rec) {
             let s2 = Status::from_error(Box::new(Wrap(h2::Error::from(reason))));
             rec.ev(json!({"e":"h2","code":s1.code() as i32,"nested":s2.code() as i32}));
         }
+        // the same table for a stream that a real peer resets: a bare h2 server answers a call made through a tonic channel with
+        // RST_STREAM(reason), before any response headers ("early") or after them ("late"); `code` is what the caller is given
+        "h2_remote" => {
+            let reason = h2::Reason::from(stim["reason"].as_u64().unwrap() as u32);
+            let late = stim["when"].as_str() == Some("late");
+            let code = block_on_paused(async move {
+                let (c_io, s_io, _d) = crate::shim::Shim::pair(65536, 65536, 65536, 0);
+                let srv = tokio::spawn(async move {
+                    if let Ok(mut conn) = h2::server::handshake(s_io).await {
+                        while let Some(Ok((_req, mut respond))) = conn.accept().await {
+                            if late {
+                                let head = http::Response::builder().status(200).header("content-type", "application/grpc").body(()).unwrap();
+                                if let Ok(mut stream) = respond.send_response(head, false) { stream.send_reset(reason); }
+                            } else { respond.send_reset(reason); }
+                        }
+                    }
+                });
+                let mut slot = Some(c_io);
+                let ch = tonic::transport::Endpoint::from_static("http://peer.test")
+                    .connect_with_connector(tower::service_fn(move |_: http::Uri| { let io = slot.take(); async move { io.map(hyper_util::rt::TokioIo::new).ok_or_else(|| std::io::Error::other("gone")) } })).await;
+                let code = match ch {
+                    Err(_) => -2,
+                    Ok(ch) => {
+                        let mut cl = crate::labs::call::gen::svc::svc_client::SvcClient::new(ch);
+                        match tokio::time::timeout(std::time::Duration::from_secs(30), cl.unary(tonic::Request::new(vec![1u8]))).await { Err(_) => -3, Ok(Ok(_)) => 0, Ok(Err(s)) => s.code() as i32 }
+                    }
+                };
+                srv.abort();
+                code
+            });
+            rec.ev(json!({"e":"h2","code":code,"nested":code}));
+        }
         k => panic!("status lab: unknown kind {k}"),
     }
 }
@@ -191,5 +223,6 @@ pub fn gen(seed: u64, tier: &str) -> Vec<Value> {
     }
     for s in 100..600u32 { out.push(json!({"kind":"http","class":"http_table","status":s})); }
     for r in (0..21u32).chain([255u32, 1000, 0x7fffffff].into_iter()) { out.push(json!({"kind":"h2","class":"h2_table","reason":r})); }
+    for r in 0..14u32 { for when in ["early", "late"] { out.push(json!({"kind":"h2_remote","class":"h2_remote_reset","reason":r,"when":when})); } }
     out
 }
